@@ -145,6 +145,19 @@ CLAIMS = {
               "root(compact(p)) = root(p) for every p. Collision resistance of the hash is outside the claim."),
         technique="sibling agreement of provenance terms + exhaustive variant decision tables",
         design_ref="§4 C19"),
+    "C15": dict(
+        category="other",
+        text=("Structural clauses decided: the tagged-hash midstates rustc evaluated equal the SHA-256 midstates of the Elements tags and every "
+              "hash site uses the engine of the right tag; the tree builder (NodeInfo::combine) and the verifier "
+              "(ControlBlock::verify_taproot_commitment) hash pairs smaller-first under the same tag, start from the same leaf hash and end in "
+              "tweak_add_check with the stored parity and H_tweak(internal key || root); combine appends the partner hash to every leaf path of "
+              "both children; control-block encoder order equals decoder offsets, size() = 33 + 32m, accepted lengths are exactly 33 + 32m "
+              "with m <= 128 (decision table), leaf versions table over all 256 bytes; builder guards as exact decision tables over "
+              "(depth, pending length) incl. over-complete/incomplete/empty refusal; Huffman: min-heap on Reverse<u64>, two pops per merge, "
+              "saturating weight sum; key tweak composition for public keys and key pairs. NOT decided: that a wrong script/version/path/parity/"
+              "key fails to verify (collision resistance and curve arithmetic), and optimality of Huffman depths beyond the algorithm's shape."),
+        technique="structured-listing extraction + sibling agreement + exhaustive guard decision tables + evaluated-constant comparison",
+        design_ref="§4 C15"),
     "C17": dict(
         category="proof",
         text=("Proof by finite computation for the data-part clause: from the generator constants rustc evaluated out of /repo, all 31*N "
